@@ -268,6 +268,12 @@ def reject_cases(seed=0):
                 bad.append(dict(what="rejected options left files behind", case=tag, files=sorted(left)))
                 for f in left:
                     os.remove(os.path.join(td, f))
+        # a device that was simulated successfully and whose terminal is then moved off the film (in place) is ill posed for the next run
+        d_h = make_device()
+        tdgl.solve(d_h, tdgl.SolverOptions(solve_time=0.1, output_file=os.path.join(td, "hist_ok.h5")), applied_vector_potential=0.1, terminal_currents=dict(source=1.0, drain=-1.0))
+        d_h.terminals[0].translate(dx=-50.0, inplace=True)
+        attempt("terminal moved off the film (in place) after an earlier successful solve on the same device object", device=d_h, applied_vector_potential=0.1,
+                terminal_currents=dict(source=1.0, drain=-1.0))
         # validation decides, it does not rewrite: after validate() every option still has the value the user gave (the object is reused for later runs)
         import dataclasses as _dc
         import itertools as _it
